@@ -346,7 +346,7 @@ func poolOracle(cfg poolCfg, m *gx.PoolMethod, st *poolState, ex *vsched.Exec) (
 	if st.newErr != nil {
 		vsched.InternalError("NewGenginePool failed on the harness rule set: %v", st.newErr)
 	}
-	isolation := cfg.Prop == "C06"
+	isolation := cfg.Prop == "C06" || cfg.Prop == "C03"
 	if ex.Verdict != "" {
 		what := "execution did not complete: " + ex.Verdict + " " + firstLine(ex.Crash)
 		if ex.Verdict != "crash" {
